@@ -163,25 +163,35 @@ PROPS = {
  },
  "C20": {
   "modules": ["OsmoVerif.Props.C20"],
-  "min_theorems": 38,
+  "min_theorems": 60,
   "fingerprints": ["Auth.*"],
   "engines": [{"name": "auth", "kind": "app", "n": {"quick": 24000, "thorough": 240000}, "shards": {"quick": 4, "thorough": 16}}],
-  "rule": "histories through the real msg servers of tokenfactory, lockup, concentrated-liquidity and superfluid: factory denoms (incl. admin changes to users / "
-          "module accounts / the pool address and renouncing), locks (plain and superfluid-capable), CL positions (incl. transfers, a locked one); then every object x "
-          "every message type x senders {owner/admin, stranger, previous owner/admin, creator, the pool's own address, module accounts, gov, allow-listed non-owner, "
-          "malformed}; an evaluation is one message; non-trivial = not a message on an already renounced denom; distinct = distinct op lines",
-  "trusted_base": ["cosmos-sdk bank/auth keepers (ledger modelled as an association list)",
+  "rule": "histories through the real msg servers of tokenfactory, lockup, concentrated-liquidity, superfluid, valset-pref and gamm(stableswap): factory denoms (incl. admin changes to users / "
+          "module accounts / the pool address and renouncing), locks of lkd / uosmo / gamm-share / CL-share denoms with one gamm lock set up in EACH life-cycle state (bonded, unlocking, "
+          "superfluid bonded / undelegating / undelegating+unlocking), CL positions (plain, with an underlying lock, superfluid staked; transfers), stableswap pools with / without a "
+          "scaling-factor controller; then every object x every message type (incl. UnbondConvertAndStake, AddToConcentratedLiquiditySuperfluidPosition, the disabled "
+          "UnlockAndMigrate..., DelegateBondedTokens, StableSwapAdjustScalingFactors, BeginUnlockingAll, UnPoolWhitelistedPool) x senders {owner/admin, RESOURCED stranger (holds liquid pool "
+          "shares exceeding every lock, uosmo, eth/usdc, a validator-set preference, is on the force-unlock allow-list in most histories and sends what the owner could send), previous "
+          "owner/admin, creator, the pool's own address (also resourced), module accounts incl. the lockup module account that holds all locked shares, gov, malformed}; for the stranger the same "
+          "message is re-sent by the owner on a discarded branch (twin) and the rejection error is classified (reject-reason.* / able-reject.* counters); UnPoolWhitelistedPool is sent only by "
+          "addresses without a lock of the pool and AddToConcentratedLiquiditySuperfluidPosition takes the new liquidity as an input (pool math not modelled); an evaluation is one message; "
+          "non-trivial = not a message on an already renounced denom; distinct = distinct op lines",
+  "trusted_base": ["cosmos-sdk bank/auth/staking keepers (ledger modelled as an association list; staking not modelled)",
                    "tx atomicity of baseapp (a message that errors is discarded): reproduced by the engine with a cache context",
-                   "sets the model cannot compute are inputs: well-formed bech32 strings, maccPerms module accounts, existing contracts / validators"],
-  "assumptions": ["the CL / lockup / superfluid math (liquidity, rewards, osmo-equivalents, lockup balances) is NOT modelled: only the authorisation decision, "
-                  "the order of the checks and the owner/admin record effect",
+                   "sets the model cannot compute are inputs: well-formed bech32 strings, maccPerms module accounts, existing contracts / validators, addresses with a validator-set "
+                   "preference or delegation, the unpool allow-list",
+                   "the test app's bond denom is switched to uosmo (as on the real chain) after the validator is set up"],
+  "assumptions": ["the CL / lockup / superfluid / gamm math (liquidity, rewards, osmo-equivalents, lockup balances, pool exits, swaps, staking) is NOT modelled: only the authorisation decision, "
+                  "the order of the checks and the owner/admin/lock/position record effect",
                   "senders are non-empty strings (ValidateBasic / signer extraction): a renounced admin is the empty string and the Go guard is a plain string "
                   "comparison (theorem renounced_empty_sender_witness)",
-                  "governance module account is an administrator of TransferPositions by design (position.go isGovModuleSender)"],
-  "explanation": "one theorem per message: a sender other than the current owner/admin gets (input state, err), for all states/arguments; renounced admin is dead, and "
-                 "stays renounced over any history; mint/burn/force-transfer never change a module-account balance; new denoms are always factory/<sender>/... and "
-                 "foreign namespaces are untouched (parse uniqueness proved); admin / lock-owner / position-owner records change only at the hands of the owner (or gov). "
-                 "Tied by T1 guard facts extracted from the Go source (guards_pinned, calls_pinned, order_pinned) and by the differential run through the real msg servers; "
+                  "governance module account is an administrator of TransferPositions by design (position.go isGovModuleSender)",
+                  "UnbondConvertAndStake is sent with MinAmtToStake = 0 and lock id > 0 (id 0 converts the sender's own liquid shares: no owned object)"],
+  "explanation": "one theorem per message: a sender other than the current owner/admin/controller gets (input state, err), for all states/arguments, whatever funds, pool shares or "
+                 "preferences the sender holds; renounced admin is dead, and stays renounced over any history; mint/burn/force-transfer never change a module-account balance; new denoms are "
+                 "always factory/<sender>/... and foreign namespaces are untouched (parse uniqueness proved); admin / lock-owner / position-owner records change only at the hands of the owner "
+                 "(or gov); messages that name no object (BeginUnlockingAll, UnPoolWhitelistedPool) leave the locks of everybody else untouched; the disabled migration fails for everybody. "
+                 "Tied by T1 guard facts extracted from the Go source (guards_pinned[_more], calls_pinned[_more], order_pinned[_more]) and by the differential run through the real msg servers; "
                  "independent oracle: unauthorised => error and no store write (all KV/transient stores of the cache context compared with the parent).",
  },
  "C06": {
